@@ -14,6 +14,7 @@ from .values import (SymV, Opaque, AbsVal, Obj, ClassRef, ExtClass, FuncRef, Bou
 EXT_SUBMODULES = {"numpy.random", "os.path", "gymnasium.spaces", "gym.spaces", "yaml"}
 
 # run-time type tags for scalars where isinstance() matters (C10)
+INF_SYMBOL = None     # when set (z3 Real), math.inf is modelled by this symbol (see contracts.c_action.inf_setup)
 TAG_INT, TAG_BOOL, TAG_FLOAT, TAG_NPINT, TAG_NPFLOAT, TAG_STR = 1, 2, 3, 4, 5, 6
 
 
@@ -22,6 +23,8 @@ def ext_attr(modname, attr):
     if dotted in EXT_SUBMODULES:
         return ModRef(dotted)
     if dotted == "math.inf":
+        if INF_SYMBOL is not None:
+            return SymV(INF_SYMBOL, "real")
         return math.inf
     if dotted == "math.pi":
         return math.pi
@@ -131,7 +134,12 @@ def binop(I, op, a, b, node=None):
         if I.ctx.branch(y == 0):
             I.raise_("ZeroDivisionError", node)
         if not I.ctx.branch(y > 0):
-            raise EngineLimit("floor division / modulo by a possibly negative divisor")
+            # the quantifier-free pruning could not exclude a negative divisor: ask the full solver
+            from . import vc
+            r = vc.solve_one(I.ctx.hyps()[:-1], y > 0, 5000, use_cvc5=False)
+            if r["status"] != "discharged":
+                raise EngineLimit("floor division / modulo by a possibly negative divisor")
+            raise __import__("pyvc.interp", fromlist=["PathEnd"]).PathEnd()
         # python // and % agree with SMT-LIB div/mod for positive divisors
         return mk(x / y if isinstance(op, ast.FloorDiv) else x % y, "int")
     raise EngineLimit(f"binop {type(op).__name__}")
@@ -456,6 +464,8 @@ def setitem(I, obj, key, v, node=None):
         return
     if isinstance(obj, PyDict):
         if is_sym(key) or (isinstance(key, tuple) and any(is_sym(k) for k in key)):
+            if not obj.fresh:
+                I.ctx.writes.append(("dict", obj))
             raise EngineLimit("symbolic key stored into a concrete dict")
         check_hashable_concrete(key)
         if not obj.fresh:
@@ -651,6 +661,18 @@ def _isinstance(I, v, t):
 
 
 def _minmax(I, which, args):
+    if len(args) == 1 and isinstance(args[0], SymSeq) and args[0].concrete_len() is None:
+        # assumed contract of min/max over a non-empty sequence of ints: a bound that is attained
+        seq = args[0]
+        if I.ctx.branch(ival(seq.n) <= 0):
+            I.raise_("ValueError")
+        m = I.ctx.fresh("seq_" + which, z3.IntSort())
+        j = I.ctx.fresh("mmj", z3.IntSort())
+        w = I.ctx.fresh("mmw", z3.IntSort())
+        cmp_ = (lambda a, b: a >= b) if which == "min" else (lambda a, b: a <= b)
+        I.ctx.assume(z3.ForAll([j], z3.Implies(z3.And(0 <= j, j < ival(seq.n)), cmp_(ival(seq.elem(j)), m))))
+        I.ctx.assume(z3.And(0 <= w, w < ival(seq.n), ival(seq.elem(w)) == m))
+        return SymV(m, "int")
     if len(args) == 1:
         args = I.iter_concrete(args[0])
         if not args:
